@@ -21,35 +21,61 @@ type vMInteraction struct {
 	descr    bool
 	query    bool
 	request  int // 0 none, 1 body any, 2 body jsight, 3 headers + body any
-	useTag   bool
+	useTag   int // 0 no Tags directive, 1 Tags @t1, 2 Tags @t2
 	opID     bool
 	explicit bool // method context written with ( )
+	idx      int
 	resp     []vMResponse
 }
 
 type vModel struct {
 	info, infoDescr bool
 	server          bool
-	tag             bool
-	typ             bool
-	enum            bool
+	tag, tag2       bool
+	typ, typ2       bool
+	enum, enum2     bool
+	server2         bool
+	urlTag          int // grouped only: 0 none, 1 URL-level Tags @t1, 2 @t2
 	grouped         bool // both interactions under one URL directive (same path)
 	blockAnn        bool // annotations written as /* */
 	ints            []vMInteraction
 }
 
-var vMMethods = []string{"GET", "POST", "PUT"}
+var vMMethods = []string{"GET", "POST", "PUT", "PATCH", "DELETE"}
 var vMPaths = []string{"/a", "/a/{id}", "/b"}
 
 // Feature selection: the model has ~25 (n=1) / ~45 (n=2) feature choices; a job
 // makes the features selected by the bit mask `mask` symbolic (the solver explores
 // all their combinations) and fixes the others to the bits of `fixed`.
-var vFeatIdx, vFeatMask, vFeatFixed int
+var vFeatIdx, vFeatMask, vFeatFixed, vFeatGroup int
+
+// Feature groups: semantically related features that are made symbolic together.
+var vFeatGroups = [][]string{
+	nil,
+	{"tag", "tag2", "useTag0", "useTag1", "grouped", "urlTag", "path0", "path1"},
+	{"info", "infoDescr", "server", "server2", "typ", "typ2", "enum", "enum2", "tag", "tag2", "blockAnn"},
+	{"nresp0", "swap0", "body0a", "hdr0a", "rann0a", "body0b", "hdr0b", "rann0b", "typ"},
+	{"ann0", "descr0", "query0", "request0", "opid0", "explicit0", "method0", "path0"},
+	{"grouped", "explicit0", "explicit1", "path0", "path1", "method0", "method1", "urlTag", "tag"},
+	{"nresp1", "swap1", "body1a", "hdr1a", "rann1a", "body1b", "hdr1b", "request1", "descr1"},
+}
+
+func vFeatSymbolic(name string, i uint) bool {
+	if vFeatMask>>i&1 == 1 {
+		return true
+	}
+	for _, n := range vFeatGroups[vFeatGroup] {
+		if n == name {
+			return true
+		}
+	}
+	return false
+}
 
 func vFeatBool(name string) bool {
 	i := uint(vFeatIdx % 60)
 	vFeatIdx++
-	if vFeatMask>>i&1 == 1 {
+	if vFeatSymbolic(name, i) {
 		return vBool(name)
 	}
 	return vFeatFixed>>i&1 == 1
@@ -58,17 +84,18 @@ func vFeatBool(name string) bool {
 func vFeatInt(name string, lo, hi int) int {
 	i := uint(vFeatIdx % 60)
 	vFeatIdx++
-	if vFeatMask>>i&1 == 1 {
+	if vFeatSymbolic(name, i) {
 		return vInt(name, lo, hi)
 	}
 	return lo + (vFeatFixed>>i)%(hi-lo+1)
 }
 
 func vModelSymbolic(n int) vModel {
-	vFeatIdx, vFeatMask, vFeatFixed = 0, vParam("mask", 0x3ff), vParam("fixed", 0)
+	vFeatIdx, vFeatMask, vFeatFixed, vFeatGroup = 0, vParam("mask", 0), vParam("fixed", 0), vParam("group", 0)
 	var m vModel
 	m.info, m.infoDescr = vFeatBool("info"), vFeatBool("infoDescr")
 	m.server, m.tag, m.typ, m.enum = vFeatBool("server"), vFeatBool("tag"), vFeatBool("typ"), vFeatBool("enum")
+	m.server2, m.tag2, m.typ2, m.enum2 = vFeatBool("server2"), vFeatBool("tag2"), vFeatBool("typ2"), vFeatBool("enum2")
 	m.blockAnn = vFeatBool("blockAnn")
 	for i := 0; i < n; i++ {
 		id := string(rune('0' + i))
@@ -76,11 +103,12 @@ func vModelSymbolic(n int) vModel {
 			method: vMMethods[vFeatInt("method"+id, 0, len(vMMethods)-1)],
 			path:   vMPaths[vFeatInt("path"+id, 0, len(vMPaths)-1)],
 			ann:    vFeatBool("ann" + id), descr: vFeatBool("descr" + id), query: vFeatBool("query" + id),
-			request: vFeatInt("request"+id, 0, 3), useTag: vFeatBool("useTag" + id), opID: vFeatBool("opid" + id),
-			explicit: vFeatBool("explicit" + id),
+			request: vFeatInt("request"+id, 0, 3), useTag: vFeatInt("useTag"+id, 0, 2), opID: vFeatBool("opid" + id),
+			explicit: vFeatBool("explicit" + id), idx: i,
 		}
-		if !m.tag {
-			vAssume(!in.useTag)
+		// dependent features are coerced (not assumed), so that every feature vector is a model
+		if (!m.tag && in.useTag == 1) || (!m.tag2 && in.useTag == 2) {
+			in.useTag = 0
 		}
 		nr := vFeatInt("nresp"+id, 1, 2)
 		codes := []string{"200", "404"}
@@ -90,19 +118,29 @@ func vModelSymbolic(n int) vModel {
 		for r := 0; r < nr; r++ {
 			rid := id + string(rune('a'+r))
 			rs := vMResponse{code: codes[r], body: vFeatInt("body"+rid, 0, 2), headers: vFeatBool("hdr" + rid), ann: vFeatBool("rann" + rid)}
-			if !m.typ {
-				vAssume(rs.body != 1)
+			if !m.typ && rs.body == 1 {
+				rs.body = 0
 			}
 			in.resp = append(in.resp, rs)
 		}
 		m.ints = append(m.ints, in)
 	}
 	if n == 2 {
-		// distinct interactions
-		vAssume(!(m.ints[0].method == m.ints[1].method && m.ints[0].path == m.ints[1].path))
-		m.grouped = vFeatBool("grouped")
+		// distinct interactions: the second one moves to the next method when they coincide
+		if m.ints[0].method == m.ints[1].method && m.ints[0].path == m.ints[1].path {
+			for k, mm := range vMMethods {
+				if mm == m.ints[1].method {
+					m.ints[1].method = vMMethods[(k+1)%len(vMMethods)]
+					break
+				}
+			}
+		}
+		m.grouped = vFeatBool("grouped") && m.ints[0].path == m.ints[1].path
 		if m.grouped {
-			vAssume(m.ints[0].path == m.ints[1].path)
+			m.urlTag = vFeatInt("urlTag", 0, 2)
+			if (!m.tag && m.urlTag == 1) || (!m.tag2 && m.urlTag == 2) {
+				m.urlTag = 0
+			}
 		}
 	}
 	return m
@@ -128,14 +166,26 @@ func vRender(m vModel) string {
 	if m.server {
 		sb.WriteString("SERVER @prod" + m.annotation("production") + "\n  BaseUrl \"https://api.example.com\"\n")
 	}
+	if m.server2 {
+		sb.WriteString("SERVER @test\n  BaseUrl \"https://test.example.com\"\n")
+	}
 	if m.tag {
 		sb.WriteString("TAG @t1" + m.annotation("first tag") + "\n")
+	}
+	if m.tag2 {
+		sb.WriteString("TAG @t2\n  Description\n    second\n")
 	}
 	if m.typ {
 		sb.WriteString("TYPE @ty" + m.annotation("a type") + "\n{\n  \"a\": 1\n}\n")
 	}
+	if m.typ2 {
+		sb.WriteString("TYPE @ty2 regex\n/z+/\n")
+	}
 	if m.enum {
 		sb.WriteString("ENUM @en\n[\"x\", \"y\"]\n")
+	}
+	if m.enum2 {
+		sb.WriteString("ENUM @en2" + m.annotation("second enum") + "\n[1, 2]\n")
 	}
 	writeInt := func(in vMInteraction, ind string, withPath bool) {
 		line := ind + in.method
@@ -150,11 +200,11 @@ func vRender(m vModel) string {
 		if in.explicit {
 			sb.WriteString(ind + "(\n")
 		}
-		if in.useTag {
-			sb.WriteString(ci + "Tags @t1\n")
+		if in.useTag > 0 {
+			sb.WriteString(ci + "Tags @t" + strconv.Itoa(in.useTag) + "\n")
 		}
 		if in.opID {
-			sb.WriteString(ci + "OperationId op" + in.method + strconv.Itoa(len(in.path)) + "\n")
+			sb.WriteString(ci + "OperationId op" + in.method + strconv.Itoa(in.idx) + "\n")
 		}
 		if in.descr {
 			sb.WriteString(ci + "Description\n" + ci + "  what " + in.method + "\n" + ci + "  does\n")
@@ -206,6 +256,9 @@ func vRender(m vModel) string {
 	}
 	if m.grouped {
 		sb.WriteString("URL " + m.ints[0].path + "\n")
+		if m.urlTag > 0 {
+			sb.WriteString("  Tags @t" + strconv.Itoa(m.urlTag) + "\n")
+		}
 		for _, in := range m.ints {
 			writeInt(in, "  ", false)
 		}
@@ -234,11 +287,20 @@ func vExpectedDigest(m vModel) []string {
 	if m.server {
 		add("server", "@prod", q("https://api.example.com"), q("production"))
 	}
+	if m.server2 {
+		add("server", "@test", q("https://test.example.com"), q(""))
+	}
 	if m.typ {
 		add("type", "@ty", q("a type"), "jsight", "{\"a\":1}")
 	}
+	if m.typ2 {
+		add("type", "@ty2", q(""), "regex", "/z+/")
+	}
 	if m.enum {
 		add("enum", "@en", q(""), "[\"x\",\"y\"]")
+	}
+	if m.enum2 {
+		add("enum", "@en2", q("second enum"), "[1,2]")
 	}
 	// tags: declared ones first, then path tags in the order of first use
 	type tg struct {
@@ -257,10 +319,24 @@ func vExpectedDigest(m vModel) []string {
 	if m.tag {
 		tags = append(tags, &tg{name: "@t1", title: "first tag", descr: "<nil>"})
 	}
+	if m.tag2 {
+		tags = append(tags, &tg{name: "@t2", title: "@t2", descr: q("second")})
+	}
+	// the tag of an interaction: its own Tags, else the URL's Tags, else the path tag
+	tagOf := func(in vMInteraction) int {
+		if in.useTag > 0 {
+			return in.useTag
+		}
+		if m.grouped {
+			return m.urlTag
+		}
+		return 0
+	}
 	for _, in := range m.ints {
 		id := "http " + in.method + " " + in.path
-		if in.useTag {
-			find("@t1").ids = append(find("@t1").ids, id)
+		if t := tagOf(in); t > 0 {
+			n := "@t" + strconv.Itoa(t)
+			find(n).ids = append(find(n).ids, id)
 			continue
 		}
 		first := strings.Split(strings.TrimPrefix(in.path, "/"), "/")[0]
@@ -278,8 +354,8 @@ func vExpectedDigest(m vModel) []string {
 	for _, in := range m.ints {
 		id := "http " + in.method + " " + in.path
 		tagName := "@" + strings.Split(strings.TrimPrefix(in.path, "/"), "/")[0]
-		if in.useTag {
-			tagName = "@t1"
+		if t := tagOf(in); t > 0 {
+			tagName = "@t" + strconv.Itoa(t)
 		}
 		ann, desc, opid := "<nil>", "<nil>", "<nil>"
 		if in.ann {
@@ -289,7 +365,7 @@ func vExpectedDigest(m vModel) []string {
 			desc = q("what " + in.method + "\ndoes")
 		}
 		if in.opID {
-			opid = q("op" + in.method + strconv.Itoa(len(in.path)))
+			opid = q("op" + in.method + strconv.Itoa(in.idx))
 		}
 		add("http", id, id, "tags="+tagName, "ann="+ann, "desc="+desc, "opid="+opid)
 		if strings.Contains(in.path, "{") {
